@@ -187,10 +187,37 @@ class ScannerModel:
     """unscanny::Scanner over a concrete short string, as an oracle for Frame: the documented semantics of the few
     methods the lexer's scanner loops use (trusted base). Anything else is Unsupported (the rule then fails closed)."""
 
-    def __init__(self, text, extra=None):
+    def __init__(self, text, extra=None, char_fn=None):
         self.text = text
         self.pos = 0
         self.extra = extra or {}
+        self.char_fn = char_fn          # (callee or closure path, char) -> bool | None : predicates used as scanner patterns
+
+    def _pat_matches(self, fr, t, args):
+        """length of the match of the pattern operand (args[1]) at the cursor: a char / str constant, or a predicate
+        (fn item or closure) applied to the next character"""
+        raw = t["args"][1] if len(t["args"]) > 1 else None
+        if isinstance(raw, dict) and raw.get("const") is not None and "fn" not in raw:
+            pat = self.pattern(args[1])
+            return len(pat) if self.text.startswith(pat, self.pos) else 0
+        fn = None
+        if isinstance(raw, dict) and raw.get("fn"):
+            fn = raw["fn"]
+        else:
+            for ga in (t["f"].get("args") or []):
+                if isinstance(ga, dict) and (ga.get("closure") or ga.get("fn")):
+                    fn = ga.get("closure") or ga.get("fn")
+        if fn is None or self.char_fn is None:
+            if args[1] is not None:
+                pat = self.pattern(args[1])
+                return len(pat) if self.text.startswith(pat, self.pos) else 0
+            raise Unsupported("scanner pattern is neither a constant nor a known predicate")
+        if self.pos >= len(self.text):
+            return 0
+        v = self.char_fn(fn, self.text[self.pos])
+        if v is None:
+            raise Unsupported("pattern predicate %s could not be evaluated" % fn)
+        return 1 if v else 0
 
     @staticmethod
     def pattern(v):
@@ -215,17 +242,32 @@ class ScannerModel:
                 if self.pos >= len(self.text):
                     return ("none",)
                 return ("some", ("int", ord(self.text[self.pos])))
-            if name in ("eat_if", "at", "eat_until"):
+            if name == "eat_until":
                 pat = self.pattern(args[1] if len(args) > 1 else None)
                 rest = self.text[self.pos:]
-                if name == "eat_until":
-                    i = rest.find(pat)
-                    self.pos = len(self.text) if i < 0 else self.pos + i
-                    return ("unit",)
-                hit = rest.startswith(pat)
-                if hit and name == "eat_if":
-                    self.pos += len(pat)
-                return ("int", 1 if hit else 0)
+                i = rest.find(pat)
+                self.pos = len(self.text) if i < 0 else self.pos + i
+                return ("unit",)
+            if name in ("eat_if", "at"):
+                k = self._pat_matches(fr, t, args)
+                if k and name == "eat_if":
+                    self.pos += k
+                return ("int", 1 if k else 0)
+            if name == "eat_while":
+                start = self.pos
+                while self.pos < len(self.text):
+                    k = self._pat_matches(fr, t, args)
+                    if not k:
+                        break
+                    self.pos += k
+                return ("str", self.text[start:self.pos])
+            if name in ("get", "from", "to"):
+                a = args[1] if len(args) > 1 else None
+                if name == "from" and a is not None and a[0] == "int":
+                    return ("str", self.text[a[1]:self.pos])
+                if name == "get" and a is not None and a[0] == "variant" and len(a[3]) == 2 and all(x and x[0] == "int" for x in a[3]):
+                    return ("str", self.text[a[3][0][1]:a[3][1][1]])
+                raise Unsupported("scanner method %s with an unevaluated range" % name)
             if name == "scout":
                 n = args[1] if len(args) > 1 else None
                 if n is None or n[0] != "int":
